@@ -788,13 +788,12 @@ PeerConnectionBase::up_extension() {
 
   m_extension_message.clear();
 
-  // If we have an unprocessed message, process it now and enable reads again.
+  // If we have an unprocessed message, process it now and enable reads again. It may still have
+  // to wait (another reply became pending while this one was being written): reads then stay
+  // disabled until that reply has been written too.
   if (m_extensions->is_complete() && !m_extensions->is_invalid()) {
-    // DEBUG: What, this should fail when we block, no?
-    if (!m_extensions->read_done())
-      throw internal_error("PeerConnectionBase::up_extension could not process complete extension message.");
-
-    this_thread::poll()->insert_read(this);
+    if (m_extensions->read_done())
+      this_thread::poll()->insert_read(this);
   }
 
   return true;
